@@ -660,6 +660,40 @@ def build_files(ctx, doc_rows):
             arg, sz = big(n)
             t.raw("var b%d = %d + 1;" % (i, n - 1))
             t.assign("component %s = %s(b%d);" % (v, tn, i), "TComponent", v, [], tn, [arg], checks=[("nonstrict", tn, sz)])
+    # constant-expression forms: every operator the constant folder knows, local-variable chains,
+    # compound assignment, a variable assigned the same constant on both branches (the value the
+    # documented Circom semantics gives is the oracle's size)
+    for tn in ("Num2Bits", "Bits2Num"):
+        t = f.add(Tmpl("ConstForms" + tn, "n"))
+        forms = [("1 << 7", 128), ("1 << 8", 256), ("2 ** 7", 128), ("2 ** 8", 256), ("508 \\ 2", 254), ("506 \\ 2", 253),
+                 ("1000 % 300", 100), ("1254 % 1000", 254), ("255 & 254", 254), ("255 & 253", 253), ("125 | 128", 253),
+                 ("126 | 128", 254), ("255 ^ 2", 253), ("255 ^ 1", 254), ("512 >> 1", 256), ("506 >> 1", 253),
+                 ("-(-253)", 253), ("-(-254)", 254), ("(1 == 1) ? 253 : 300", 253), ("(1 == 2) ? 253 : 300", 300),
+                 ("506 / 2", 253), ("508 / 2", 254), ("253 * 1", 253), ("127 * 2", 254), ("300 - 47", 253), ("300 - 46", 254),
+                 ("!0", True), ("3 < 4", True), ("253 == 253", True)]
+        for expr, val in forms:
+            v = "s%d" % i
+            i += 1
+            t.assign("component %s = %s(%s);" % (v, tn, expr), "TComponent", v, [], tn, [val],
+                     checks=[("nonstrict", tn, None if isinstance(val, bool) else val)])
+        t.raw("var x%d = 250;" % i)
+        t.raw("var y%d = x%d + 3;" % (i, i))
+        t.raw("var z%d = y%d + 1;" % (i, i))
+        t.assign("component ca%d = %s(y%d);" % (i, tn, i), "TComponent", "ca%d" % i, [], tn, [253], checks=[("nonstrict", tn, 253)])
+        t.assign("component cb%d = %s(z%d);" % (i, tn, i), "TComponent", "cb%d" % i, [], tn, [254], checks=[("nonstrict", tn, 254)])
+        t.raw("var u%d = 0;" % i)
+        t.raw("if (n == 1) { u%d = 253; } else { u%d = 253; }" % (i, i))
+        t.assign("component cc%d = %s(u%d);" % (i, tn, i), "TComponent", "cc%d" % i, [], tn, [253], checks=[("nonstrict", tn, 253)])
+        t.raw("var w%d = 253;" % i)
+        t.raw("w%d += 1;" % i)
+        t.assign("component cd%d = %s(w%d);" % (i, tn, i), "TComponent", "cd%d" % i, [], tn, [254], checks=[("nonstrict", tn, 254)])
+        t.raw("var q%d = 254;" % i)
+        t.raw("q%d--;" % i)
+        t.assign("component ce%d = %s(q%d);" % (i, tn, i), "TComponent", "ce%d" % i, [], tn, [253], checks=[("nonstrict", tn, 253)])
+        t.raw("var r%d = 0;" % i)
+        t.raw("if (n == 1) { r%d = 253; } else { r%d = 252; }" % (i, i))
+        # two different constants: not ONE compile-time constant - flagged (conservative)
+        t.assign("component cf%d = %s(r%d);" % (i, tn, i), "TComponent", "cf%d" % i, [], tn, [None], checks=[("nonstrict", tn, None)])
     files.append(f)
     # 6b. LessThan fed from Num2Bits(k) for the sentinel sizes k
     f = CFile("lt_big")
@@ -796,6 +830,30 @@ def build_files(ctx, doc_rows):
                 t.constrain("%s.in[0] <== %s;" % (cl, w), cl, ["in", 0], w)
                 t.lt_value(w, [sz])
     assert j <= 40
+    # components in two- and three-dimensional arrays (access paths longer than one index)
+    for i in range(4):
+        t.raw("signal input x%d;" % i)
+    t.raw("component nm[2][2];")
+    t.raw("component lm[2][2];")
+    t.raw("component nq[2][2][2];")
+    t.assign("nm[1][0] = Num2Bits(20);", "TComponent", "nm", [1, 0], "Num2Bits", [20])
+    t.constrain("nm[1][0].in <== x0;", "nm", [1, 0, "in"], "x0")
+    t.assign("lm[0][1] = LessThan(8);", "TComponent", "lm", [0, 1], "LessThan", [8])
+    t.constrain("lm[0][1].in[0] <== x0;", "lm", [0, 1, "in", 0], "x0")
+    t.lt_value("x0", [20])
+    t.assign("nm[0][1] = Num2Bits(300);", "TComponent", "nm", [0, 1], "Num2Bits", [300])
+    t.constrain("nm[0][1].in <== x1;", "nm", [0, 1, "in"], "x1")
+    t.constrain("lm[0][1].in[1] <== x1;", "lm", [0, 1, "in", 1], "x1")
+    t.lt_value("x1", [300])
+    t.assign("nq[1][0][1] = Num2Bits(20);", "TComponent", "nq", [1, 0, 1], "Num2Bits", [20])
+    t.constrain("nq[1][0][1].in <== x2;", "nq", [1, 0, 1, "in"], "x2")
+    t.assign("lm[1][1] = LessThan(8);", "TComponent", "lm", [1, 1], "LessThan", [8])
+    t.constrain("lm[1][1].in[0] <== x2;", "lm", [1, 1, "in", 0], "x2")
+    t.lt_value("x2", [20])
+    # the range check sits at another index of the same array: not the same component
+    t.constrain("nm[1][1].in <== x3;", "nm", [1, 1, "in"], "x3")
+    t.constrain("lm[1][1].in[1] <== x3;", "lm", [1, 1, "in", 1], "x3")
+    t.lt_value("x3", [])
     t.raw("o <== w0;")
     files.append(f)
     # 10.. seeded random mixtures (names, sizes, LessThan inputs with several range checks)
